@@ -436,6 +436,15 @@ func TestVerifUploadSeq(t *testing.T) {
 
 func runSeqScenario(c *seqChecks, base string, s *seqScenario, rnd *verifrt.Rand, i int) {
 	td := newTdir(base)
+	if i%16 == 9 && len(s.Files) > 0 {
+		// the telemetry directory lives below a directory whose name contains a
+		// date - here the end date of one of the weeks (a dated backup or
+		// profile directory): nothing may depend on the path
+		os.RemoveAll(td.root)
+		dated, _ := os.MkdirTemp(base, "profile-"+s.Files[0].End.UTC().Format("2006-01-02")+"-")
+		td = newTdir(dated)
+		c.c07.Hit("telemetry-dir-path-contains-week-date")
+	}
 	defer os.RemoveAll(td.root)
 	srv := newFakeSrv()
 	defer srv.close()
